@@ -494,8 +494,31 @@ def two_lcs(draw, n: int) -> int:
     return mask_of(n, edges)
 
 
+@st.composite
+def shortcut(draw, n: int) -> int:
+    """A pair (a, b) whose shortest connecting path runs over a shallow common hypernym r
+    while their lowest (deepest) common hypernym z lies off that path:
+    z -> r, m -> z, a -> {r, m}, b -> {r, z}; optionally r gets a parent; further nodes hang
+    below existing ones.  Distances to the LCS (2 + 1) exceed the shortest-path length (2).
+    Needs n >= 5."""
+    if n < 5:
+        return draw(layered(n))
+    order = draw(_perm(n))
+    r, z, m, a, b = order[:5]
+    edges = [(z, r), (m, z), (a, r), (a, m), (b, r), (b, z)]
+    used = 5
+    if n > 5 and draw(st.booleans()):
+        edges.append((r, order[5]))
+        used = 6
+    for k in range(used, n):
+        for y in draw(st.lists(st.integers(0, k - 1), min_size=1, max_size=2, unique=True)):
+            edges.append((order[k], order[y]))
+    return mask_of(n, edges)
+
+
 FAMILIES = {'dag': dag_biased, 'cyclic': cycle_biased, 'forest': forest,
-            'diamonds': diamond_stack, 'layered': layered, 'two-lcs': two_lcs}
+            'diamonds': diamond_stack, 'layered': layered, 'two-lcs': two_lcs,
+            'shortcut': shortcut}
 
 
 @st.composite
